@@ -1106,6 +1106,21 @@ Definition step (v : variant) (st : state) (o : op) : list (state * out) :=
       end
   end.
 
+(* Config.Validate -> validateSubscriberPoolOverlap (/repo 1d4c0cb): the ranges of two pools of one family and one VRF
+   must be disjoint, across all profiles (an empty range overlaps nothing; PD pools: the pool networks).  A
+   configuration that fails is rejected at load time: nothing is built from it. *)
+Definition pool_span (p : pool) : N * N :=
+  match p_geom p with
+  | GRange lo hi _ => (lo, hi)
+  | GPfx base _ count shift => (base, base + count * 2 ^ shift - 1)
+  end.
+Definition spans_apart (p q : pool) : bool :=
+  let (a1, b1) := pool_span p in let (a2, b2) := pool_span q in
+  (b1 <? a1) || (b2 <? a2) || (b1 <? a2) || (b2 <? a1).
+Definition cfg_valid (ps : list pool) : bool :=
+  forallb (fun p => forallb (fun q => same_pool p q || negb (fam_eqb (p_fam p) (p_fam q)) ||
+                                      negb (p_vrf p =? p_vrf q) || spans_apart p q) ps) ps.
+
 Definition init_state (ps : list pool) (ss : list sess) : state :=
   mkState (mkReg ps []) ss (mkProv [] [] [] 0 (mkProv6 [] [] [] []) []).
 
